@@ -144,6 +144,15 @@ def handle (op : String) (c i : Json) : Except String (Json × String) := do
         else match bad with
           | b :: _ => "fail: " ++ b
           | [] => "ok")
+  | "bus" =>
+    -- c = {"fmt", "names": [bus names]}; i = {"keys": [bus names read], "same": [per described bus: frames and layouts identical]}
+    if (i.getObjVal? "exc").toOption.isSome then
+      return (J.obj [], "fail: writing or reading the multi-bus file raised an exception")
+    let names ← J.strList (← J.key c "names")
+    let keys ← J.strList (← J.key i "keys")
+    let same ← (← J.arr (← J.key i "same")).mapM J.bool
+    pure (J.obj [], if !(names.all keys.contains) then "fail: a bus of the file is missing after reading it back"
+      else if same.all id then "ok" else "fail: a bus does not keep exactly its own frames and signal layouts")
   | _ => throw s!"C06/C07: unknown op {op}"
 
 end D06
